@@ -244,6 +244,8 @@ def _gap_sem(p: Program, mb: Any) -> tuple[str, int]:
                 c = self.expr(e.func.value, env)
                 if isinstance(c, possem.Obj) and c.cls == 'ModelClass':
                     return possem.Obj('Built', {'type': c.f['type'], 'raw_text': self.expr(e.args[0], env), 'claimed': True}, 'built')
+            if isinstance(e, ast.Name) and e.id not in env and e.id == ignored_name:
+                return ignored_types
             if isinstance(e, ast.Call) and norm(e.func) == 'isinstance' and len(e.args) == 2:
                 v = self.expr(e.args[0], env)
                 t = norm(e.args[1])
@@ -253,8 +255,57 @@ def _gap_sem(p: Program, mb: Any) -> tuple[str, int]:
             return super().expr(e, env)
 
     import itertools
-    kinds = {'t': ('ACCOUNT', 'Assets:A'), 'e': ('EOL', ''), 'c': ('BLOCK_COMMENT', '; note'), 'w': ('WHITESPACE', ' ')}
+    from .c12 import grammar
+    # the module-level set of token types the grammar %ignores (`_IGNORED_TOKENS = frozenset(_GRAMMAR.ignore)`), whatever it is called
+    ignored_name = next((t.id for st in ast.walk(m.tree) if isinstance(st, ast.Assign) for t in st.targets if isinstance(t, ast.Name)
+                         and isinstance(st.value, ast.Call) and any(isinstance(x, ast.Attribute) and x.attr == 'ignore' for x in ast.walk(st.value))), None)
+    ignored_types = list(grammar(p).ignore)
+    kinds = {'t': ('ACCOUNT', 'Assets:A'), 'e': ('EOL', ''), 'c': ('BLOCK_COMMENT', '; note'), 'w': ('WHITESPACE', ' '), 'i': ('INDENT', '  '), 'j': ('INDENT', '')}
     cases = 0
+    # _build_indent: the indent of an indented child is the next token with text, line breaks / comments / blanks (the %ignore'd types) aside;
+    # a token of the model itself in front of it means there is no indent -- it must not be jumped over
+    bi = mb.lookup('_build_indent')
+    if isinstance(bi, FuncInfo):
+        for k in range(0, 5):
+            for seq in itertools.product('tecwij', repeat=k):
+                toks = [possem.Obj('LarkToken', {'type': kinds[ch][0], 'value': possem.StrSym(f'v{i}', False) if kinds[ch][1] else ''}, f'{i}:{ch}')
+                        for i, ch in enumerate(seq)]
+                for cursor in range(0, k + 1):
+                    me = possem.Obj('ModelBuilder', {'_tokens': list(toks), '_built_tokens': [], '_cursor': cursor,
+                                                     '_token_to_index': {id(t): i for i, t in enumerate(toks)}}, 'builder')
+                    cases += 1
+                    want_i = None
+                    for i in range(cursor, k):
+                        ch = seq[i]
+                        if kinds[ch][1] == '':
+                            continue
+                        if ch == 'i':
+                            want_i = i
+                            break
+                        if kinds[ch][0] in ignored_types:
+                            continue
+                        break
+                    shown = f'tokens {"".join(seq) or "-"} (t model token, e zero-width mark, c comment, w blank, i indent, j empty indent), cursor {cursor}'
+                    try:
+                        res = Interp(ts, [], module=m).call_function(bi, [me], {})
+                        raised = False
+                    except possem.Raised:
+                        res, raised = None, True
+                    if want_i is None:
+                        if not raised:
+                            return (f'{shown}: _build_indent does not refuse although a token of the model itself (or nothing) comes before any indent; '
+                                    f'it builds {len(me.f["_built_tokens"])} token(s) and moves on, so lexer tokens are materialised out of order / twice'), cases
+                        if me.f['_built_tokens']:
+                            return f'{shown}: _build_indent refuses after having materialised {len(me.f["_built_tokens"])} token(s)', cases
+                        continue
+                    if raised:
+                        return f'{shown}: _build_indent refuses although the next token with text (ignored types aside) is an indent', cases
+                    want = [(t.f['type'], id(t.f['value'])) for t in toks[cursor:want_i + 1] if t.f['value'] != '']
+                    got = [(b.f['type'], id(b.f['raw_text'])) for b in me.f['_built_tokens']]
+                    if got != want or me.f['_cursor'] != want_i + 1 or not (me.f['_built_tokens'] and res is me.f['_built_tokens'][-1]):
+                        return (f'{shown}: _build_indent materialises {len(got)} token(s) and leaves the cursor at {me.f["_cursor"]!r}; expected the '
+                                f'{len(want)} token(s) with text up to the indent at {want_i}, cursor {want_i + 1}, returning the indent'), cases
+    kinds = {'t': ('ACCOUNT', 'Assets:A'), 'e': ('EOL', ''), 'c': ('BLOCK_COMMENT', '; note'), 'w': ('WHITESPACE', ' ')}
     for k in range(0, 5):
         for seq in itertools.product('tecw', repeat=k):
             # texts of unknown length: a token with text is an abstract string whose length is a positive symbol, so a test on the
@@ -314,7 +365,8 @@ def _gap_sem(p: Program, mb: Any) -> tuple[str, int]:
 def rule_builder_cons(ctx: RuleContext, p: Program, rid: str) -> None:
     ctx.rule(rid, 'ModelBuilder: _built_tokens is append-only; _fix_gap materialises every token between the cursor and its argument '
                   'that has text (the only skip is `not token.value`) and moves the cursor there; _build_token fills the gap up to '
-                  'its token, appends it and advances the cursor by one; build() fills the final gap before the single insertion of '
+                  'its token, appends it and advances the cursor by one; _build_indent takes the next token with text (ignored types aside) if it is '
+                  'an indent and refuses otherwise, without having built anything; build() fills the final gap before the single insertion of '
                   'the whole list at the start of its own store')
     mb = p.cls('ModelBuilder', 'parser')
     site = 'parser:ModelBuilder'
